@@ -37,6 +37,16 @@ impl Runner {
         }
     }
 
+    #[cfg(feature = "verif-hooks")]
+    fn emit_run_begin(&self) {
+        crate::verif::emit(crate::verif::Event::RunBegin {
+            max_num_threads: self.max_num_threads,
+            chunk_size: self.chunk_size.inner(),
+            exact: matches!(self.chunk_size, ResolvedChunkSize::Exact(_)),
+            input_len: self.input_len,
+        });
+    }
+
     pub fn do_spawn(&self, num_spawned: usize, has_more: HasMore) -> bool {
         match num_spawned {
             x if x >= self.max_num_threads - 1 => false,
@@ -97,6 +107,18 @@ impl Runner {
         F: Fn(usize) + Sync,
     {
         let runner = Self::new(params, task_type, iter.try_get_len());
+        #[cfg(feature = "verif-hooks")]
+        runner.emit_run_begin();
+        #[cfg(feature = "verif-hooks")]
+        let _run_guard = crate::verif::RunGuard;
+        #[cfg(feature = "verif-hooks")]
+        let hooked_task = |c: usize| {
+            crate::verif::emit(crate::verif::Event::WorkerBegin { chunk_size: c });
+            let _guard = crate::verif::WorkerGuard;
+            thread_task(c)
+        };
+        #[cfg(feature = "verif-hooks")]
+        let thread_task = &hooked_task;
 
         let mut num_spawned = 0;
 
@@ -104,6 +126,10 @@ impl Runner {
             let mut chunk: usize = runner.chunk_size.inner();
             'lag_period: loop {
                 for _ in 0..LAG_PERIODICITY {
+                    #[cfg(feature = "verif-hooks")]
+                    crate::verif::emit(crate::verif::Event::BeforeSpawnDecision {
+                        num_spawned: num_spawned,
+                    });
                     match runner.do_spawn(num_spawned, iter.has_more()) {
                         false => break 'lag_period,
                         true => {
@@ -114,14 +140,26 @@ impl Runner {
                 }
 
                 lag();
+                #[cfg(feature = "verif-hooks")]
+                crate::verif::emit(crate::verif::Event::AfterLag {
+                    num_spawned: num_spawned,
+                });
                 match runner.next_chunk_size(num_spawned, iter.has_more()) {
                     None => break 'lag_period,
                     Some(c) => chunk = c,
                 }
             }
 
+            #[cfg(feature = "verif-hooks")]
+            crate::verif::emit(crate::verif::Event::BeforeFinalSpawn {
+                num_spawned: num_spawned,
+            });
             s.spawn(move || thread_task(chunk));
             num_spawned += 1;
+            #[cfg(feature = "verif-hooks")]
+            crate::verif::emit(crate::verif::Event::SpawnerWaits {
+                num_spawned: num_spawned,
+            });
         });
 
         num_spawned
@@ -139,6 +177,18 @@ impl Runner {
         Out: Send + Sync,
     {
         let runner = Self::new(params, task_type, iter.try_get_len());
+        #[cfg(feature = "verif-hooks")]
+        runner.emit_run_begin();
+        #[cfg(feature = "verif-hooks")]
+        let _run_guard = crate::verif::RunGuard;
+        #[cfg(feature = "verif-hooks")]
+        let hooked_task = |c: usize| {
+            crate::verif::emit(crate::verif::Event::WorkerBegin { chunk_size: c });
+            let _guard = crate::verif::WorkerGuard;
+            thread_task(c)
+        };
+        #[cfg(feature = "verif-hooks")]
+        let thread_task = &hooked_task;
 
         let mut num_spawned = 0;
 
@@ -147,6 +197,10 @@ impl Runner {
             let mut chunk: usize = runner.chunk_size.inner();
             'lag_period: loop {
                 for _ in 0..LAG_PERIODICITY {
+                    #[cfg(feature = "verif-hooks")]
+                    crate::verif::emit(crate::verif::Event::BeforeSpawnDecision {
+                        num_spawned: num_spawned,
+                    });
                     match runner.do_spawn(num_spawned, iter.has_more()) {
                         false => break 'lag_period,
                         true => {
@@ -157,14 +211,26 @@ impl Runner {
                 }
 
                 lag();
+                #[cfg(feature = "verif-hooks")]
+                crate::verif::emit(crate::verif::Event::AfterLag {
+                    num_spawned: num_spawned,
+                });
                 match runner.next_chunk_size(num_spawned, iter.has_more()) {
                     None => break 'lag_period,
                     Some(c) => chunk = c,
                 }
             }
 
+            #[cfg(feature = "verif-hooks")]
+            crate::verif::emit(crate::verif::Event::BeforeFinalSpawn {
+                num_spawned: num_spawned,
+            });
             handles.push(s.spawn(move || thread_task(chunk)));
             num_spawned += 1;
+            #[cfg(feature = "verif-hooks")]
+            crate::verif::emit(crate::verif::Event::SpawnerWaits {
+                num_spawned: num_spawned,
+            });
 
             let mut vec = vec![];
             for x in handles {
@@ -188,6 +254,18 @@ impl Runner {
         R: Fn(T, T) -> T,
     {
         let runner = Self::new(params, task_type, iter.try_get_len());
+        #[cfg(feature = "verif-hooks")]
+        runner.emit_run_begin();
+        #[cfg(feature = "verif-hooks")]
+        let _run_guard = crate::verif::RunGuard;
+        #[cfg(feature = "verif-hooks")]
+        let hooked_task = |c: usize| {
+            crate::verif::emit(crate::verif::Event::WorkerBegin { chunk_size: c });
+            let _guard = crate::verif::WorkerGuard;
+            thread_task(c)
+        };
+        #[cfg(feature = "verif-hooks")]
+        let thread_task = &hooked_task;
 
         std::thread::scope(|s| {
             let mut threads = Vec::with_capacity(runner.max_num_threads);
@@ -195,6 +273,10 @@ impl Runner {
             let mut chunk: usize = runner.chunk_size.inner();
             'lag_period: loop {
                 for _ in 0..LAG_PERIODICITY {
+                    #[cfg(feature = "verif-hooks")]
+                    crate::verif::emit(crate::verif::Event::BeforeSpawnDecision {
+                        num_spawned: threads.len(),
+                    });
                     match runner.do_spawn(threads.len(), iter.has_more()) {
                         false => break 'lag_period,
                         true => threads.push(s.spawn(move || thread_task(chunk))),
@@ -202,13 +284,25 @@ impl Runner {
                 }
 
                 lag();
+                #[cfg(feature = "verif-hooks")]
+                crate::verif::emit(crate::verif::Event::AfterLag {
+                    num_spawned: threads.len(),
+                });
                 match runner.next_chunk_size(threads.len(), iter.has_more()) {
                     None => break 'lag_period,
                     Some(c) => chunk = c,
                 }
             }
 
+            #[cfg(feature = "verif-hooks")]
+            crate::verif::emit(crate::verif::Event::BeforeFinalSpawn {
+                num_spawned: threads.len(),
+            });
             threads.push(s.spawn(move || thread_task(chunk)));
+            #[cfg(feature = "verif-hooks")]
+            crate::verif::emit(crate::verif::Event::SpawnerWaits {
+                num_spawned: threads.len(),
+            });
 
             let num_threads = threads.len();
             let result = threads
